@@ -1,1 +1,52 @@
-import TT.Model.Wire
+/-
+  C06 — The receiver is total and rejects exactly the invalid events.
+
+  `Spec` (TT/Model/History.lean) tracks known call sites and alive spans from the event history
+  alone. For every system state reachable by any history (events well-formed or not, persist with
+  kept / lost map / new host, discard) under the proviso that a span id is not re-announced while
+  alive, `tryReceive` never panics, is rejected exactly when `Spec.invalid` is non-empty, and
+  reports the first applicable reason in the code's check order.
+-/
+import TT.Lemmas.RecvSim
+
+namespace TT
+
+/-- Total and exact: no panic; the result is `ok` when no reason applies, and otherwise the error
+    naming the first applicable reason. -/
+theorem C06_total_exact (w₀ : World) (ops : List HOp) (e : Event)
+    (hno : noReannounceFrom {} (ops ++ [.ev e]) = true) :
+    (tryReceive (runHistory (Sys.init w₀) ops).σ e).verdict
+      = some ((runSpec {} ops).cur.verdict e) := recv_verdict w₀ ops e hno
+
+/-- Corollaries in the wording of the property. -/
+theorem C06_never_panics (w₀ : World) (ops : List HOp) (e : Event)
+    (hno : noReannounceFrom {} (ops ++ [.ev e]) = true) :
+    ∀ site σ', tryReceive (runHistory (Sys.init w₀) ops).σ e ≠ .panic site σ' := by
+  intro site σ' h
+  have := C06_total_exact w₀ ops e hno
+  rw [h] at this
+  simp [Res.verdict] at this
+
+theorem C06_rejects_iff_invalid (w₀ : World) (ops : List HOp) (e : Event)
+    (hno : noReannounceFrom {} (ops ++ [.ev e]) = true) :
+    (∃ r σ', tryReceive (runHistory (Sys.init w₀) ops).σ e = .err r σ') ↔
+      (runSpec {} ops).cur.invalid e ≠ [] := by
+  sorry
+
+theorem C06_reported_reason_applies (w₀ : World) (ops : List HOp) (e : Event)
+    (hno : noReannounceFrom {} (ops ++ [.ev e]) = true) (r : RErr) (σ' : Sigma)
+    (h : tryReceive (runHistory (Sys.init w₀) ops).σ e = .err r σ') :
+    r ∈ (runSpec {} ops).cur.invalid e := by
+  sorry
+
+/-- Non-vacuity: a reachable state after a restart in which one event is invalid for two reasons
+    and the first one in check order is reported. -/
+example :
+    let d : CallSite := ⟨.span, [110], [97], .info, none, none, none, [[102]]⟩
+    let ops : List HOp := [.ev (.newCallSite 7 d), .ev (.newSpan 1 none 7 []), .persist .loseNew, .ev (.entered 1)]
+    noReannounceFrom {} (ops ++ [.ev (.newSpan 2 (some 9) 8 [])]) = true ∧
+    (runSpec {} ops).cur.invalid (.newSpan 2 (some 9) 8 []) = [.unknownMeta 8, .unknownSpan 9] ∧
+    (tryReceive (runHistory (Sys.init {}) ops).σ (.newSpan 2 (some 9) 8 [])).verdict = some (some (.unknownMeta 8)) := by
+  decide
+
+end TT
